@@ -13,8 +13,8 @@
     - [acts]: the receiver's schedule -- frames taken from the port queue, interleaved at will with
       [recv] calls that are dropped while pending and repeated ([RReenter]); a prefix of it is a
       connection or channel that ended early;
-    - [brun]: [rch::base::Receiver::recv] run over that schedule;
-    - [outside_known_class]: no unfinished message carries a complete encoding (finding F15). *)
+    - [brun]: [rch::base::Receiver::recv] run over that schedule ([RReenter]: the feed loop notices that
+      the deserializer thread has ended, e.g. when a dropped [recv] is repeated). *)
 From Remoc Require Import Lib.Base Chmux.Parse Chmux.Recv Chmux.PortFlow Rch.Base Rch.BaseProofs Rch.BaseLink Rch.Mpsc Rch.MpscProofs Rch.C04Link Run.RunBase.
 
 (** The receiver's results are, send by send and in order, what each send means ([sent_spec]): for
@@ -22,7 +22,6 @@ From Remoc Require Import Lib.Base Chmux.Parse Chmux.Recv Chmux.PortFlow Rch.Bas
     items anywhere, every framing and every receiver schedule. *)
 Theorem C04_base : forall decode ports_of md rmax dflt c its bd acts,
   Forall (honest decode ports_of dflt) (map fst its) ->
-  outside_known_class decode (send_all c bd its) ->
   Framed (flat_map s_atts (send_all c bd its)) (frames_of acts) ->
   snd (brun decode ports_of (binit md dflt rmax) acts) =
   flat_map (sent_spec decode md rmax) (send_all c bd its).
@@ -32,7 +31,6 @@ Proof. exact base_end_to_end. Qed.
     can accept -- equal to the originals, in order, each once (nothing duplicated, truncated, merged). *)
 Theorem C04_base_values : forall decode ports_of md rmax dflt c its bd,
   Forall (honest decode ports_of dflt) (map fst its) ->
-  outside_known_class decode (send_all c bd its) ->
   oks (flat_map (sent_spec decode md rmax) (send_all c bd its)) =
   filter (acceptable decode rmax) (sent_ok (send_all c bd its)).
 Proof. exact base_success. Qed.
@@ -42,7 +40,6 @@ Proof. exact base_success. Qed.
     failed or whose value the receiver cannot accept. *)
 Theorem C04_base_attribution : forall decode ports_of md rmax dflt c its bd,
   Forall (honest decode ports_of dflt) (map fst its) ->
-  outside_known_class decode (send_all c bd its) ->
   Forall (attributed decode md rmax) (send_all c bd its).
 Proof. exact base_attribution. Qed.
 
@@ -68,27 +65,37 @@ Theorem C04_port_emits_framings : forall c md mp acts,
                exists rest, emitted s = consumed s ++ rest.
 Proof. exact emitted_framed. Qed.
 
-(** The full statement (without [outside_known_class]) is FALSE for the current code: finding F15. *)
-Theorem C04_base_refuted :
-  exists c bd its acts,
-    Forall (honest toy_decode toy_ports 128) (map fst its) /\
-    Framed (flat_map s_atts (send_all c bd its)) (frames_of acts) /\
-    exists x, In x (send_all c bd its) /\ s_res x <> SOk /\
-              In (ROk (ibytes (s_item x))) (snd (brun toy_decode toy_ports (binit 8 128 1000) acts)).
-Proof. exact f12_witness. Qed.
+(** The former finding F15 (an unfinished message that carries a complete encoding: [Serialize] failing
+    after the last byte, or a send dropped while [finish] waits for credit; the receiver's pending [recv]
+    dropped and repeated) on the repaired receiver: nothing is delivered for the failed send, its
+    neighbour arrives. *)
+Example C04_former_F15_serialize :
+  map s_res f15_sent = [SErrSer; SOk] /\
+  map s_atts (firstn 1 f15_sent) = [[ADataCut (toy_bytes 7 0 0 12)]] /\ toy_decode (toy_bytes 7 0 0 12) = DOk /\
+  snd (brun toy_decode toy_ports (binit 8 128 1000)
+         (map RFrame (flat_map (att_frames 4) (flat_map s_atts (firstn 1 f15_sent))) ++ [RReenter; RReenter])) = [] /\
+  snd (brun toy_decode toy_ports (binit 8 128 1000) f15_acts) = [ROk (toy_bytes 8 0 0 5)] /\
+  sent_ok f15_sent = [toy_bytes 8 0 0 5].
+Proof. exact f15_repaired. Qed.
+
+Example C04_former_F15_cancel :
+  map s_res f15_sent2 = [SCancelled] /\
+  map s_atts f15_sent2 = [[ADataCut (toy_bytes 7 0 0 12)]] /\
+  snd (brun toy_decode toy_ports (binit 8 128 1000)
+         (map RFrame (flat_map (att_frames 4) (flat_map s_atts f15_sent2)) ++ [RReenter; RReenter])) = [].
+Proof. exact f15_repaired2. Qed.
 
 (** [rch::lr]: [lr::Sender::send] and [lr::Receiver::recv] hand over to the base halves of the lr port
     ([lr/sender.rs], [lr/receiver.rs]); the statement is that of the base channel. *)
 Theorem C04_lr : forall decode ports_of md rmax dflt c its bd acts,
   Forall (honest decode ports_of dflt) (map fst its) ->
-  outside_known_class decode (send_all c bd its) ->
   Framed (flat_map s_atts (send_all c bd its)) (frames_of acts) ->
   oks (snd (brun decode ports_of (binit md dflt rmax) acts)) =
   filter (acceptable decode rmax) (sent_ok (send_all c bd its)).
 Proof.
-  exact (fun decode ports_of md rmax dflt c its bd acts Hh Hk Hf =>
-           eq_trans (f_equal (oks) (base_end_to_end decode ports_of md rmax dflt c its bd acts Hh Hk Hf))
-                    (base_success decode ports_of md rmax dflt c its bd Hh Hk)).
+  exact (fun decode ports_of md rmax dflt c its bd acts Hh Hf =>
+           eq_trans (f_equal (oks) (base_end_to_end decode ports_of md rmax dflt c its bd acts Hh Hf))
+                    (base_success decode ports_of md rmax dflt c its bd Hh)).
 Qed.
 
 (** [rch::mpsc], receiving endpoint, every schedule of the forwarding tasks, of port / connection ends
@@ -133,7 +140,6 @@ Proof. exact oneshot_end_to_end. Qed.
     value with a channel half; the receiver obtains exactly the first and the third. *)
 Example C04_nonvacuous :
   map s_res ex_sent = [SOk; SErrSer; SOk] /\
-  map (cut_complete toy_decode) (map s_atts ex_sent) = [false; false; false] /\
   snd (brun toy_decode toy_ports (binit 8 128 1000) ex_acts) = [ROk (toy_bytes 1 0 0 6); ROk (toy_bytes 3 1 0 20)] /\
   sent_ok ex_sent = [toy_bytes 1 0 0 6; toy_bytes 3 1 0 20].
 Proof. exact ex_run. Qed.
@@ -144,7 +150,8 @@ Print Assumptions C04_base_attribution.
 Print Assumptions C04_base_prefix.
 Print Assumptions C04_canonical_framing.
 Print Assumptions C04_port_emits_framings.
-Print Assumptions C04_base_refuted.
+Print Assumptions C04_former_F15_serialize.
+Print Assumptions C04_former_F15_cancel.
 Print Assumptions C04_lr.
 Print Assumptions C04_mpsc_conservation.
 Print Assumptions C04_mpsc.
